@@ -49,13 +49,34 @@ func gdFuncsOf(c *Ctx, rels ...string) []*ssa.Function {
 		}
 		out = append(out, fn)
 	}
-	sort.Slice(out, func(i, j int) bool {
-		if out[i].Pos() != out[j].Pos() {
-			return out[i].Pos() < out[j].Pos()
-		}
-		return out[i].String() < out[j].String()
-	})
+	gdSortFuncs(c, out)
 	return out
+}
+
+// gdSortFuncs orders functions by (file name, offset, name). token.Pos values
+// are not comparable across files from one run to the next (the file set is
+// filled by a concurrent loader), so they must not decide an order.
+func gdSortFuncs(c *Ctx, fns []*ssa.Function) {
+	type key struct {
+		file string
+		off  int
+		name string
+	}
+	keys := make(map[*ssa.Function]key, len(fns))
+	for _, fn := range fns {
+		pp := c.Fset.Position(gdPosOfFunc(fn))
+		keys[fn] = key{pp.Filename, pp.Offset, fn.String()}
+	}
+	sort.SliceStable(fns, func(i, j int) bool {
+		a, b := keys[fns[i]], keys[fns[j]]
+		if a.file != b.file {
+			return a.file < b.file
+		}
+		if a.off != b.off {
+			return a.off < b.off
+		}
+		return a.name < b.name
+	})
 }
 
 // gdReachable returns the set of functions reachable in the VTA call graph
@@ -225,8 +246,8 @@ func (n *gdNamer) funcName(fn *ssa.Function) string {
 	return parent + role
 }
 
-// caseCtx renders the switch clauses (innermost function only) enclosing pos:
-// "case Opcode_Rem/case IntValueKind".
+// caseCtx renders the clauses of tagged (and type) switches (innermost function
+// only) enclosing pos: "case Opcode_Rem/case IntValueKind".
 func (n *gdNamer) caseCtx(pos token.Pos) string {
 	path := n.path(pos)
 	start := 0
@@ -237,8 +258,15 @@ func (n *gdNamer) caseCtx(pos token.Pos) string {
 		}
 	}
 	var parts []string
-	for _, nd := range path[start:] {
+	for j, nd := range path[start:] {
 		if cc, ok := nd.(*ast.CaseClause); ok {
+			// a clause of a tagless switch is one arm of an if / else-if chain written
+			// differently: it names no construct, the key is that of the if form
+			if j+start >= 2 {
+				if sw, ok := path[j+start-2].(*ast.SwitchStmt); ok && sw.Tag == nil {
+					continue
+				}
+			}
 			if cc.List == nil {
 				parts = append(parts, "default")
 				continue
@@ -259,50 +287,166 @@ func (n *gdNamer) caseCtx(pos token.Pos) string {
 
 // exprAt returns the source text of the innermost expression whose
 // characteristic position (operator, bracket, paren, star) is pos.
-func (n *gdNamer) exprAt(pos token.Pos) string {
+func (n *gdNamer) exprAt(pos token.Pos) string { return n.render(pos, false) }
+
+// render: the text of exprAt, or (shape) its rename-stable form (see shapeAt).
+func (n *gdNamer) render(pos token.Pos, shape bool) string {
+	str := func(e ast.Expr) string {
+		if shape {
+			return n.shapeStr(e)
+		}
+		return exprStr(e)
+	}
 	path := n.path(pos)
 	for i := len(path) - 1; i >= 0; i-- {
 		switch e := path[i].(type) {
 		case *ast.BinaryExpr:
 			if e.OpPos == pos {
-				return exprStr(e)
+				return str(e)
 			}
 		case *ast.IndexExpr:
 			if e.Lbrack == pos {
-				return exprStr(e)
+				return str(e)
 			}
 		case *ast.SliceExpr:
 			if e.Lbrack == pos {
-				return exprStr(e)
+				return str(e)
 			}
 		case *ast.StarExpr:
 			if e.Star == pos {
-				return exprStr(e)
+				return str(e)
 			}
 		case *ast.CallExpr:
 			if e.Lparen == pos {
-				return exprStr(e)
+				return str(e)
 			}
 		case *ast.SelectorExpr:
 			if e.Sel.Pos() == pos {
-				return exprStr(e)
+				return str(e)
 			}
 		case *ast.AssignStmt:
 			if e.TokPos == pos && len(e.Lhs) == 1 && len(e.Rhs) == 1 {
-				return exprStr(e.Lhs[0]) + " " + e.Tok.String() + " " + exprStr(e.Rhs[0])
+				return str(e.Lhs[0]) + " " + e.Tok.String() + " " + str(e.Rhs[0])
 			}
 		case *ast.IncDecStmt:
 			if e.TokPos == pos {
-				return exprStr(e.X) + e.Tok.String()
+				return str(e.X) + e.Tok.String()
 			}
 		}
 	}
 	for i := len(path) - 1; i >= 0; i-- {
 		if e, ok := path[i].(ast.Expr); ok {
-			return exprStr(e)
+			return str(e)
 		}
 	}
 	return ""
+}
+
+// ---------------------------------------------------------------------------
+// rename-stable fingerprints (identify a hand-reviewed construct by role)
+//
+// The obligation keys show source text (they are for the reader and for the
+// recorded findings). A table of hand-reviewed constructs must not be looked up
+// by that text: renaming a local, a parameter, an unexported function or an
+// unexported field changes the text but not the construct. The fingerprint of a
+// site is its key with every such name replaced by what the name stands for:
+// a variable by its type, an unexported function by its signature, an
+// unexported field by its type; exported names, types, constants and packages
+// are kept.
+
+// gdTypeSig: a type without parameter / result names.
+func gdTypeSig(t types.Type) string {
+	qual := func(p *types.Package) string { return p.Name() }
+	if sig, ok := t.(*types.Signature); ok {
+		tuple := func(tp *types.Tuple) string {
+			var ps []string
+			for i := 0; i < tp.Len(); i++ {
+				ps = append(ps, gdTypeSig(tp.At(i).Type()))
+			}
+			return "(" + strings.Join(ps, ", ") + ")"
+		}
+		out := "func" + tuple(sig.Params())
+		if sig.Results().Len() > 0 {
+			out += " " + tuple(sig.Results())
+		}
+		return out
+	}
+	return types.TypeString(t, qual)
+}
+
+// identShape: the rename-stable replacement of an identifier ("" = keep).
+func (n *gdNamer) identShape(f *ast.File, id *ast.Ident) string {
+	info := n.info[f]
+	if info == nil {
+		return ""
+	}
+	obj := info.Uses[id]
+	if obj == nil {
+		obj = info.Defs[id]
+	}
+	switch o := obj.(type) {
+	case *types.Var:
+		if o.IsField() {
+			if o.Exported() {
+				return ""
+			}
+			return "·" + gdTypeSig(o.Type())
+		}
+		if o.Pkg() != nil && o.Parent() == o.Pkg().Scope() && o.Exported() {
+			return ""
+		}
+		return "$" + gdTypeSig(o.Type())
+	case *types.Func:
+		if o.Exported() {
+			return ""
+		}
+		return "ƒ" + gdTypeSig(o.Type())
+	}
+	return ""
+}
+
+// shapeStr prints e with the renameable identifiers replaced by their shapes.
+func (n *gdNamer) shapeStr(e ast.Expr) string {
+	f := n.fileOf(e.Pos())
+	if f == nil {
+		return exprStr(e)
+	}
+	type saved struct {
+		id   *ast.Ident
+		name string
+	}
+	var undo []saved
+	ast.Inspect(e, func(nd ast.Node) bool {
+		if id, ok := nd.(*ast.Ident); ok {
+			if r := n.identShape(f, id); r != "" {
+				undo = append(undo, saved{id, id.Name})
+				id.Name = r
+			}
+		}
+		return true
+	})
+	out := exprStr(e)
+	for _, u := range undo {
+		u.id.Name = u.name
+	}
+	return out
+}
+
+// shapeAt: exprAt in rename-stable form.
+func (n *gdNamer) shapeAt(pos token.Pos) string { return n.render(pos, true) }
+
+// funcShape: funcName in rename-stable form (an unexported function or method
+// is named by its signature).
+func (n *gdNamer) funcShape(fn *ssa.Function) string {
+	if fn.Parent() != nil {
+		name := n.funcName(fn)
+		return n.funcShape(fn.Parent()) + strings.TrimPrefix(name, n.funcName(fn.Parent()))
+	}
+	name := n.funcName(fn)
+	if obj, ok := fn.Object().(*types.Func); ok && !obj.Exported() {
+		name = strings.TrimSuffix(name, fn.Name()) + "ƒ" + gdTypeSig(fn.Signature)
+	}
+	return name
 }
 
 func gdShort(s string, n int) string {
@@ -352,6 +496,29 @@ const (
 type gdCallCtx struct {
 	call   *ssa.Call
 	callee *ssa.Function
+	outer  *gdCallCtx // frame the call itself is made in (nil = the analysed function)
+}
+
+// rootCall: the call in the analysed function through which this frame was
+// entered (reads made in the frame are ordered there).
+func (c *gdCallCtx) rootCall() *ssa.Call {
+	for c.outer != nil {
+		c = c.outer
+	}
+	return c.call
+}
+
+// gdCtxEq: the two frames are the same activation.
+func gdCtxEq(a, b *gdCallCtx) bool {
+	for {
+		if a == b {
+			return true
+		}
+		if a == nil || b == nil || a.call != b.call {
+			return false
+		}
+		a, b = a.outer, b.outer
+	}
 }
 
 type gdStep struct {
@@ -570,7 +737,7 @@ func gdPathIn(v ssa.Value, ctx *gdCallCtx) gdPath {
 	p = gdClone(p)
 	for i := range p.steps {
 		if p.steps[i].at != nil {
-			p.steps[i].at = ctx.call
+			p.steps[i].at = ctx.rootCall()
 		}
 		if p.steps[i].kind == gdIndex {
 			p.steps[i].idxCtx = ctx
@@ -579,8 +746,8 @@ func gdPathIn(v ssa.Value, ctx *gdCallCtx) gdPath {
 	if par, ok := p.root.(*ssa.Parameter); ok && par.Parent() == ctx.callee {
 		for i, q := range ctx.callee.Params {
 			if q == par && i < len(ctx.call.Call.Args) {
-				ap := gdPathOf(ctx.call.Call.Args[i])
-				out := gdPath{root: ap.root}
+				ap := gdPathIn(ctx.call.Call.Args[i], ctx.outer)
+				out := gdPath{root: ap.root, rootCtx: ap.rootCtx}
 				out.steps = append(append([]gdStep{}, ap.steps...), p.steps...)
 				return out
 			}
@@ -658,7 +825,7 @@ func (e *gdEq) same(a, b ssa.Value) bool { return e.sameIn(a, nil, b, nil) }
 
 func (e *gdEq) sameIn(a ssa.Value, ca *gdCallCtx, b ssa.Value, cb *gdCallCtx) bool {
 	a, b = gdStrip(a), gdStrip(b)
-	if a == b && ca == cb {
+	if a == b && gdCtxEq(ca, cb) {
 		return true
 	}
 	if e.depth > 12 {
@@ -770,7 +937,7 @@ func (e *gdEq) samePathsUpTo(pa, pb gdPath) bool {
 func (e *gdEq) sameRoot(a ssa.Value, ca *gdCallCtx, b ssa.Value, cb *gdCallCtx) bool {
 	a, b = gdStrip(a), gdStrip(b)
 	if a == b {
-		if ca == cb || (ca != nil && cb != nil && ca.call == cb.call) {
+		if gdCtxEq(ca, cb) {
 			return true
 		}
 		switch a.(type) {
